@@ -303,7 +303,7 @@ func vfScenModelPart(c vfScenCase, from, to int) kit.MResult {
 		}
 		switch it.K {
 		case vfItFrame:
-			evs = append(evs, kit.MEvent{Kind: kit.MEvFrame, Motion: it.On && !first, WinOpen: c.WindowKind != 2, Refuse: refused || c.HugeDisk || c.MidDisk})
+			evs = append(evs, kit.MEvent{Kind: kit.MEvFrame, Motion: it.On && !first, WinOpen: c.WindowKind != 2, Refuse: refused || c.HugeDisk || c.MidDisk || len(c.Sock.Cam.Firmware) > 255})
 			first = false
 		case vfItBad:
 			evs = append(evs, kit.MEvent{Kind: kit.MEvBad})
@@ -344,7 +344,11 @@ func vfMatchFiles(got [][]int, want [][]int) (extra [][]int, missing [][]int) {
 
 func vfGenC04E2E(t *rapid.T) vfScenCase {
 	c := vfScenCase{Sock: vfGenSockBase(t, false, false)}
-	switch rapid.IntRange(0, 3).Draw(t, "gate") {
+	switch rapid.IntRange(0, 4).Draw(t, "gate") {
+	case 4:
+		// the file can be created but not its header (a camera description the CPTV header cannot carry): every
+		// start fails, none may count as started
+		c.Sock.Cam.Firmware = strings.Repeat("f", 300)
 	case 0:
 		switch rapid.IntRange(0, 2).Draw(t, "disk") {
 		case 0:
@@ -463,6 +467,7 @@ func vfGenC05E2E(t *rapid.T) vfScenCase {
 	sc.Min = rapid.IntRange(1, 2).Draw(t, "min5")
 	sc.Max = sc.Min + rapid.IntRange(0, 2).Draw(t, "max5")
 	c.Throttle = rapid.IntRange(0, 3).Draw(t, "activate") > 0
+	sc.Cont = rapid.IntRange(0, 2).Draw(t, "cont5") == 0 // the continuous recorder is not throttled, and does not switch throttling off
 	switch rapid.IntRange(0, 2).Draw(t, "bucket") {
 	case 0: // min <= bucket < min+preview: with the minimum length wired correctly nothing can ever be recorded
 		c.BucketS = rapid.IntRange(sc.Min, sc.Min+sc.Prev-1).Draw(t, "bucket_small")
@@ -489,7 +494,7 @@ func vfGenC05E2E(t *rapid.T) vfScenCase {
 
 func vfRunC05E2E(c vfScenCase) *kit.Result {
 	r := &kit.Result{}
-	if msg := vfScenValid(c); msg != "" || c.Sock.Cont || c.RemoveAt > 0 || c.HugeDisk || c.BucketS < 1 || c.RefillS < 1 {
+	if msg := vfScenValid(c); msg != "" || c.RemoveAt > 0 || c.HugeDisk || c.BucketS < 1 || c.RefillS < 1 {
 		r.Failf("malformed case: %s", msg)
 		return r
 	}
